@@ -52,18 +52,18 @@ theorem same_id_same_label (l : List (String × Nat)) (a b : String) (n : Nat)
 
 /-! ### lookup-or-create for an arbitrary labelling `L` of expressions -/
 
-theorem injectL_found (L : Expr → String) (st : St) (par : Nat) (e : Expr) (n : Nat)
+theorem injectL_found {α : Type} (L : α → String) (st : St) (par : Nat) (e : α) (n : Nat)
     (h : (st.children par).lookup (L e) = some n) : injectL L st (some par) e = (st, n) := by
   simp [injectL, h]
 
-theorem injectL_new (L : Expr → String) (st : St) (par : Nat) (e : Expr)
+theorem injectL_new {α : Type} (L : α → String) (st : St) (par : Nat) (e : α)
     (h : (st.children par).lookup (L e) = none) :
     injectL L st (some par) e =
       ({ children := updF st.children par (st.children par ++ [(L e, st.next)]), next := st.next + 1 },
        st.next) := by
   simp [injectL, h]
 
-theorem injectL_WF (L : Expr → String) (st : St) (parent : Option Nat) (e : Expr) (h : WF st) :
+theorem injectL_WF {α : Type} (L : α → String) (st : St) (parent : Option Nat) (e : α) (h : WF st) :
     WF (injectL L st parent e).1 := by
   cases parent with
   | none =>
@@ -110,14 +110,14 @@ theorem injectL_WF (L : Expr → String) (st : St) (parent : Option Nat) (e : Ex
         exact ⟨h1, h2, fun q hq => Nat.lt_succ_of_lt (h3 q hq)⟩
 
 /-- after the injection the label resolves to the returned node -/
-theorem injectL_lookup_self (L : Expr → String) (st : St) (par : Nat) (e : Expr) :
+theorem injectL_lookup_self {α : Type} (L : α → String) (st : St) (par : Nat) (e : α) :
     ((injectL L st (some par) e).1.children par).lookup (L e) = some (injectL L st (some par) e).2 := by
   cases hl : (st.children par).lookup (L e) with
   | some n => rw [injectL_found L st par e n hl]; exact hl
   | none => rw [injectL_new L st par e hl]; simp [List.lookup_append, hl]
 
 /-- existing names keep resolving to the same node -/
-theorem injectL_mono (L : Expr → String) (st : St) (parent : Option Nat) (e : Expr)
+theorem injectL_mono {α : Type} (L : α → String) (st : St) (parent : Option Nat) (e : α)
     (par : Nat) (l : String) (n : Nat) (h : (st.children par).lookup l = some n) :
     ((injectL L st parent e).1.children par).lookup l = some n := by
   cases parent with
@@ -406,5 +406,48 @@ theorem sliceRaises_python (ready sN bN cN : Bool) : sliceRaises .python ready s
 theorem sliceRaises_strict (ready sN bN cN : Bool) :
     sliceRaises .strict ready sN bN cN = (ready && (bN || (sN && !cN))) := by
   cases ready <;> cases sN <;> cases bN <;> cases cN <;> rfl
+
+/-! ### edits of the world between writing and re-writing -/
+
+/-- after any history whose edits fix the label of `e`, the name under which `e`'s node was stored still resolves
+to it, in the world as it is then -/
+theorem runSteps_lookup {α W : Type} (L : W → α → String) (par : Nat) (e : α) (n : Nat)
+    (steps : List (Step α W)) (w : W) (st : St)
+    (h : (st.children par).lookup (L w e) = some n) (hf : Fixes L e w steps) :
+    (((runSteps L par w st steps).2).children par).lookup (L (runSteps L par w st steps).1 e) = some n := by
+  induction steps generalizing w st with
+  | nil => exact h
+  | cons s r ih =>
+    cases s with
+    | write e' => exact ih w _ (injectL_mono (L w) st (some par) e' par _ n h) hf
+    | edit f =>
+      obtain ⟨h1, h2⟩ := hf
+      exact ih (f w) st (by rw [h1]; exact h) h2
+
+theorem fixes_of_editsIn {α W : Type} (L : W → α → String) (e : α) (ok : (W → W) → Prop)
+    (hok : ∀ f, ok f → ∀ w, L (f w) e = L w e) (steps : List (Step α W)) (w : W) (h : EditsIn ok steps) :
+    Fixes L e w steps := by
+  induction steps generalizing w with
+  | nil => trivial
+  | cons s r ih =>
+    cases s with
+    | write e' => exact ih w h
+    | edit f => exact ⟨hok f h.1 w, ih (f w) h.2⟩
+
+theorem render_congr (w w' : World) (e : Expr0) (h : ∀ i ∈ e.chans, w'.name i = w.name i) : render w' e = render w e := by
+  have ho : w'.name e.owner = w.name e.owner := h _ (by simp [Expr0.chans])
+  have hops : ∀ o ∈ e.ops, (match o with | .chan i => Operand.chan i (w'.name i) | .raw t s r => Operand.raw t s r) =
+      (match o with | .chan i => Operand.chan i (w.name i) | .raw t s r => Operand.raw t s r) := by
+    intro o ho'
+    cases o with
+    | chan i =>
+      have : w'.name i = w.name i := h i (by
+        simp only [Expr0.chans, List.mem_cons, List.mem_filterMap]
+        exact Or.inr ⟨.chan i, ho', rfl⟩)
+      simp [this]
+    | raw t s r => rfl
+  simp only [render, ho]
+  congr 1
+  exact List.map_congr_left hops
 
 end PwVerif.Inject
